@@ -30,7 +30,7 @@ func init() {
 		minNontrivial: 300,
 		quick:         tier{jobs: []job{{name: "std-safety", run: "^TestProp$", shards: 16, checks: 250, timeout: 25 * time.Minute}}},
 		thorough: tier{jobs: []job{
-			{name: "std-safety", run: "^TestProp$", shards: 16, checks: 6000, timeout: 120 * time.Minute},
+			{name: "std-safety", run: "^TestProp$", shards: 16, checks: 20000, timeout: 120 * time.Minute},
 			{name: "libfuzzer", run: "^TestLibFuzzer$", shards: 1, checks: 1, timeout: 30 * time.Minute, env: []string{"VERIF_FUZZ_SECONDS=900", "VERIF_FUZZ_WORKERS=16"}},
 		}},
 	})
